@@ -151,6 +151,19 @@ def run(ctx):
                 p["ftol_rel"] = 0.0
                 p.pop("xtol_rel", None)
                 ps.append(p)
+        # budget sweep: every N from 1 up on one problem per algorithm (the evaluation that exhausts the budget may be an accepted
+        # trial, a new best point, the last point of a population, the final extra step ... each has its own limit test)
+        for nm in problems.ALL:
+            base = problems.gen_problem(rng, A, alg_name=nm, with_constraints=False, box="finite", maxeval=1)
+            for k in ("maxtime", "clockq", "clock0", "stopval", "ftol_rel", "xtol_rel", "xtol_abs", "inj"):
+                base.pop(k, None)
+            base["obj"] = rng.choice([1, 3])
+            pop_alg = nm in ("NLOPT_GN_CRS2_LM", "NLOPT_GN_ISRES", "NLOPT_GN_ESCH") or nm in problems.MLSL
+            top = (400 if pop_alg else 150) if ctx.thorough else (220 if pop_alg else 70)
+            for N in range(1, top + 1):
+                q = dict(base)
+                q["maxeval"] = N
+                ps.append(q)
         import os
         env = dict(os.environ)
         env["HRUN_TIMEOUT"] = "10"
